@@ -596,6 +596,14 @@ func (w *_nodeRepr) AsString() (string, error) {
 			}
 		}
 		return "", fmt.Errorf("AsString: %q is not a valid member of enum %s", s, w.schemaType.Name())
+	case schema.EnumRepresentation_Int:
+		// the representation is an int; the member name is what the type-level node says
+		return "", datamodel.ErrWrongKind{
+			TypeName:        w.schemaType.Name() + ".Repr",
+			MethodName:      "AsString",
+			AppropriateKind: datamodel.KindSet_JustString,
+			ActualKind:      datamodel.Kind_Int,
+		}
 	default:
 		return (*_node)(w).AsString()
 	}
